@@ -473,17 +473,20 @@ func (g *Graph) Cyclic() bool {
 // ---- generator ----
 
 type Options struct {
-	Docs        int  // number of documents (1..6)
-	Defs        int  // definitions per document
-	Elements    bool // parameters / responses / path items with references
-	Cycles      bool // allow back edges
-	NastyNames  bool
-	HTTP        bool    // allow an http-hosted document
-	SwaggerOnly bool    // only the sub-schema keywords of the Swagger 2.0 schema object (documents valid against the meta-schema)
-	Twins       bool    // documents sharing their path with the root on other hosts / schemes, prefix-named documents
-	Spellings   bool    // vary the spelling of references (./, absolute, …)
-	NestedPtrs  bool    // references to nested pointer targets
-	RefP        float64 // probability that a sub-schema position holds a $ref
+	Docs          int  // number of documents (1..6)
+	Defs          int  // definitions per document
+	Elements      bool // parameters / responses / path items with references
+	Cycles        bool // allow back edges
+	NastyNames    bool
+	HTTP          bool    // allow an http-hosted document
+	SwaggerOnly   bool    // only the sub-schema keywords of the Swagger 2.0 schema object (documents valid against the meta-schema)
+	ElementCycles bool    // parameters / responses / path items may refer to each other in cycles (C04 only: such documents have no meaning)
+	CaseTwins     bool    // names that differ from another name of the same section only by letter case
+	HTTPRoot      bool    // the root document lives at an http URL
+	Twins         bool    // documents sharing their path with the root on other hosts / schemes, prefix-named documents
+	Spellings     bool    // vary the spelling of references (./, absolute, …)
+	NestedPtrs    bool    // references to nested pointer targets
+	RefP          float64 // probability that a sub-schema position holds a $ref
 }
 
 type node struct {
@@ -501,6 +504,9 @@ var docLayouts = []string{"file:///v/r/root.json", "file:///v/r/other.json", "fi
 var twinLayouts = []string{"file:///v/r/root.json", "http://h.example/v/r/root.json", "https://h.example/v/r/root.json", "http://mirror.example/v/r/root.json",
 	"file:///v/r/root.jsonx", "file:///v/r/root.json.d/s.json", "http://h.example/v/r/root.json2",
 	"file:///v/r-common/items.json", "file:///v/r2/o.json", "file:///v/rr.json"}
+
+// httpLayouts: the root document itself is served over http
+var httpLayouts = []string{"http://h.example/api/root.json", "http://h.example/api/other.json", "http://h.example/api/sub/s.json", "https://o.example/x.json", "http://h.example/p.json"}
 
 var nastyDefNames = []string{"a/b", "a~b", "a%20b", "a b", "é", "{x}", "a#b", "a?b", "x.y", "a%b"}
 
@@ -557,13 +563,16 @@ func Generate(r *rand.Rand, o Options) *World {
 	if o.Twins {
 		layouts = twinLayouts
 	}
+	if o.HTTPRoot {
+		layouts = httpLayouts
+	}
 	urls := []string{layouts[0]}
 	perm := r.Perm(len(layouts) - 1)
 	for _, i := range perm {
 		if len(urls) >= nd {
 			break
 		}
-		if !o.HTTP && !o.Twins && strings.HasPrefix(layouts[i+1], "http") {
+		if !o.HTTP && !o.Twins && !o.HTTPRoot && strings.HasPrefix(layouts[i+1], "http") {
 			continue
 		}
 		urls = append(urls, layouts[i+1])
@@ -574,7 +583,11 @@ func Generate(r *rand.Rand, o Options) *World {
 	names := func(n int, prefix string) []string {
 		var out []string
 		for i := 0; i < n; i++ {
-			if o.NastyNames && r.Intn(4) == 0 {
+			if o.CaseTwins && i > 0 && r.Intn(2) == 0 {
+				// the previous name with its first letter in upper case: "d0" and "D0" are different members
+				prev := out[len(out)-1]
+				out = append(out, strings.ToUpper(prev[:1])+prev[1:])
+			} else if o.NastyNames && r.Intn(4) == 0 {
 				out = append(out, nastyDefNames[r.Intn(len(nastyDefNames))]+fmt.Sprint(i))
 			} else {
 				out = append(out, fmt.Sprintf("%s%d", prefix, i))
@@ -610,14 +623,19 @@ func Generate(r *rand.Rand, o Options) *World {
 	for i, n := range nodes {
 		order[fmt.Sprint(n.doc, n.ptr)] = i
 	}
+	// a random rank: references that must stay well-founded (all element references; schema references when
+	// cycles are off) only go from a lower to a higher rank - so that an element of an imported document can
+	// point BACK into the root document, and chains can zig-zag between documents, without ever closing a loop
+	rank := r.Perm(len(nodes))
 	pickTarget := func(kind string, from int) (node, bool) {
 		var cands []node
 		for i, n := range nodes {
 			if n.kind != kind {
 				continue
 			}
-			if (!o.Cycles || kind != "schema") && i <= from {
-				continue // only forward edges: acyclic (element references are always well-founded)
+			wellFounded := (kind == "schema" && !o.Cycles) || (kind != "schema" && !o.ElementCycles)
+			if wellFounded && from >= 0 && from < len(nodes) && rank[i] <= rank[from] {
+				continue // (from < 0: a reference from the paths of the root, which nothing refers to)
 			}
 			cands = append(cands, n)
 		}
